@@ -66,8 +66,10 @@ Proof.
     set (zombie := status_eqb (s_status st1) RUNNING && (s_plan_pending st1 || (is_nil (s_tasks st1) && is_nil (children s i)))).
     destruct (negb (start_stage_fresh (s_status st1)) && negb zombie) eqn:E0; [intros []|].
     destruct (should_skip st1). { simpl. intros []. }
+    destruct (milestone_expired s st1). { simpl. intros []. }
     destruct (mutex_blocked s i st1). { simpl. intros []. }
     destruct (status_eqb (s_status st1) NOT_STARTED && choice_claimed s i st1). { simpl. intros []. }
+    destruct (y_expired (s_syn st1)). { simpl. intros []. }
     match goal with |- context [negb (fst ?m)] => destruct (fst m) end; cbn [negb]. 2:{ simpl. intros []. }
     match goal with |- context [negb (fst ?c)] => destruct (fst c) end; cbn [negb]. 2:{ simpl. intros []. }
     cbn [h_commits ok]. rewrite !puts_app.
